@@ -1087,16 +1087,22 @@ fn symbolic_root(p: bool) -> Model {
 
 fn items(tier: Tier) -> (Vec<Item>, Vec<Vec<Op>>) {
     let mut v = vec![];
-    // (b) first: the longest items
     let paths = enumerate_paths(&symbolic_root(false), depth_b(tier), tier);
-    for i in 0..paths.len() {
-        v.push(Item::Transfer { path: i });
-    }
-    for backend in [Backend::Fs, Backend::Db] {
-        for root in ["P", "E"] {
+    // longest items first: sub-trees below the account that already holds
+    // a file secret (quick: file-system backend only, see `rule`)
+    for root in ["P", "E"] {
+        for backend in [Backend::Fs, Backend::Db] {
+            if tier == Tier::Quick && root == "P" && backend == Backend::Db {
+                continue;
+            }
             let n = symbolic_root(root == "P").enabled(tier).len();
             for first in 0..n {
                 v.push(Item::Hist { backend, root: root.into(), first });
+            }
+        }
+        if root == "P" {
+            for i in 0..paths.len() {
+                v.push(Item::Transfer { path: i });
             }
         }
     }
@@ -1234,7 +1240,7 @@ fn main() {
     };
     std::fs::write(base.path().join("shared.json"), serde_json::to_vec(&sh).unwrap()).expect("write shared");
     let mut opts = PoolOpts::default();
-    opts.item_timeout = Duration::from_secs(args.tier.pick(240, 1500));
+    opts.item_timeout = Duration::from_secs(args.tier.pick(900, 5400));
     opts.env.push(("VKIT_FILEX_DIR".into(), base.path().to_string_lossy().to_string()));
     let res = pool::run_stage("filex", its.len(), &opts);
     let mut states: BTreeSet<String> = BTreeSet::new();
@@ -1302,7 +1308,7 @@ fn main() {
     cov.insert("traces_validated_against_impl".into(), json!(histories[0] + histories[1] + histories[2]));
     cov.insert("samples".into(), json!(all_samples));
     cov.insert("exhaustive".into(), json!(true));
-    cov.insert("rule".into(), json!(format!("(a) every history up to depth {da} over {{create file secret (6000-byte content in the default folder | 100-byte content in the second folder{all}), replace content (Account::update_file), update meta only, move to the other folder, delete secret, delete the second folder, archive}} x every live file secret, from the two-folder account and from the two-folder account that already holds one file secret (i.e. depth {da1} histories that begin with a create), on the file-system and sqlite client backends, explored as a tree with directory snapshots; each file encryption / decryption costs about 1 s (age scrypt), hence the shallow depth. (b) every maximal history of depth {db} from the two-folder account through the real NetworkAccount (sync + file transfer queue) against an in-process server, second device = real NetworkAccount on a copy of the initial account that syncs after every step. (c) a {blen}-byte real encrypted blob: every single-byte alteration ({vals} per position), truncation at every length, empty, 3 extended bodies, 2 wrong names, connection closed midway at {ab} length, repeated upload; each followed by a correct upload and a download. A state is the id-free model state (folder liveness, per file secret folder and content) per backend", da = depth_a(args.tier), da1 = depth_a(args.tier) + 1, db = depth_b(args.tier), all = if args.tier == Tier::Thorough { " and the two other combinations" } else { "" }, blen = std::fs::metadata(&sh.upload_blob).map(|m| m.len()).unwrap_or(0), vals = args.tier.pick("3 values", "all 255 values"), ab = args.tier.pick("every 16th", "every"))));
+    cov.insert("rule".into(), json!(format!("(a) every history up to depth {da} over {{create file secret (6000-byte content in the default folder | 100-byte content in the second folder{all}), replace content (Account::update_file), update meta only, move to the other folder, delete secret, delete the second folder, archive}} x every live file secret, from the two-folder account (file-system and sqlite client backends) and from the two-folder account that already holds one file secret (i.e. depth {da1} histories that begin with a create; {pb}), explored as a tree with directory snapshots; each file encryption / decryption costs about 1 s (age scrypt), hence the shallow depth. (b) every maximal history of depth {db} from the two-folder account through the real NetworkAccount (sync + file transfer queue) against an in-process server, second device = real NetworkAccount on a copy of the initial account that syncs after every step. (c) a {blen}-byte real encrypted blob: every single-byte alteration ({vals} per position), truncation at every length, empty, 3 extended bodies, 2 wrong names, connection closed midway at {ab} length, repeated upload; each followed by a correct upload and a download. A state is the id-free model state (folder liveness, per file secret folder and content) per backend", da = depth_a(args.tier), da1 = depth_a(args.tier) + 1, pb = args.tier.pick("file-system backend only in this tier", "both backends"), db = depth_b(args.tier), all = if args.tier == Tier::Thorough { " and the two other combinations" } else { "" }, blen = std::fs::metadata(&sh.upload_blob).map(|m| m.len()).unwrap_or(0), vals = args.tier.pick("3 values", "all 255 values"), ab = args.tier.pick("every 16th", "every"))));
     cov.insert("part_a_histories_one_device".into(), json!({"histories": histories[0], "depth": depth_a(args.tier), "backends": ["fs", "sqlite"], "work_items": its.iter().filter(|i| matches!(i, Item::Hist { .. })).count()}));
     cov.insert("part_b_transfer".into(), json!({"machinery": "real sos_net::NetworkAccount on both devices (add_server, automatic sync after every operation, its own file transfer queue); not the bare HttpClient file API", "maximal_histories": histories[1], "depth": depth_b(args.tier), "device_backends": "fs", "server_backend": "fs", "second_device_syncs": cnt.syncs}));
     cov.insert("part_c_upload_inputs".into(), json!({"inputs": histories[2], "http_requests": cnt.requests, "wrong_bodies_refused": refused, "correct_uploads_accepted_afterwards": accepted, "responses": upload_status}));
